@@ -3,6 +3,7 @@ package main
 // Rate limiter rules (C05) and retry delay rules (C13).
 
 import (
+	"sort"
 	"fmt"
 	"go/types"
 	"strconv"
@@ -39,7 +40,14 @@ func c05Executor(c *Ctx) {
 		c.Unresolved("ratelimiter.executor.Apply", "not resolved")
 		return
 	}
-	ee := c.NewExecEval(info, EvalConfig{Inline: inlinePkgs(c.P, "internal")})
+	waiters := limiterWaiters(c)
+	opaque := map[string]bool{}
+	waiterNames := map[string]bool{}
+	for _, w := range waiters {
+		opaque[canonName(w)] = true
+		waiterNames[canonName(w)] = true
+	}
+	ee := c.NewExecEval(info, EvalConfig{Inline: inlinePkgs(c.P, "internal"), Opaque: opaque})
 	paths, innerFn, exec := ee.RunApply()
 	ev, ts := ee.Ev, ee.Ev.TS
 	name, pos := c.fn(info.Slots["Apply"])+"$1", c.P.FuncPos(info.Slots["Apply"])
@@ -58,17 +66,43 @@ func c05Executor(c *Ctx) {
 		}
 		acq := eventsWhere(p, func(e *Event) bool { return isCall(e, "acquirePermitsWithMaxWait") })
 		inner := eventsWhere(p, func(e *Event) bool { return isDynCall(e, innerFn) })
-		var aa []*T
-		if len(acq) == 1 {
-			aa = lastArgs(acq[0], 4)
-		}
-		if len(acq) != 1 || aa == nil || len(fullArgs(acq[0])) != 5 || aa[1] != exec || aa[3] != maxWait || !(aa[0].Op == "app" && hasPrefix(aa[0].Aux, "Context@") && aa[0].Args[0] == exec) {
-			bad("the wrapper must acquire exactly once, with the execution (so the wait observes its cancellation), its context and the configured max wait time")
-			continue
-		}
-		if k, isC := aa[2].IsConstInt(); !isC || k != 1 {
-			bad("one execution takes exactly one permit")
-			continue
+		if len(waiters) > 0 {
+			// split mode: one call of an execution-flavoured waiter (wait rule) with the execution; the max wait is an
+			// argument or read by the waiter itself when it is a method of the executor; a permit count, if passed, is 1
+			acq = eventsWhere(p, func(e *Event) bool { return e.Kind == EvCall && e.FnTerm == nil && waiterNames[e.Method] })
+			good := len(acq) == 1
+			if good {
+				hasExec, hasMax, onExecutor := false, false, acq[0].Recv == ee.X
+				for _, a := range fullArgs(acq[0]) {
+					if a == exec {
+						hasExec = true
+					}
+					if a == maxWait {
+						hasMax = true
+					}
+					if k, isC := a.IsConstInt(); isC && k != 1 && isIntType(a.Typ) {
+						good = false
+					}
+				}
+				good = good && hasExec && (hasMax || onExecutor)
+			}
+			if !good {
+				bad("the wrapper must acquire exactly once, with the execution (so the wait observes its cancellation) and the configured max wait time")
+				continue
+			}
+		} else {
+			var aa []*T
+			if len(acq) == 1 {
+				aa = lastArgs(acq[0], 4)
+			}
+			if len(acq) != 1 || aa == nil || len(fullArgs(acq[0])) != 5 || aa[1] != exec || aa[3] != maxWait || !(aa[0].Op == "app" && hasPrefix(aa[0].Aux, "Context@") && aa[0].Args[0] == exec) {
+				bad("the wrapper must acquire exactly once, with the execution (so the wait observes its cancellation), its context and the configured max wait time")
+				continue
+			}
+			if k, isC := aa[2].IsConstInt(); !isC || k != 1 {
+				bad("one execution takes exactly one permit")
+				continue
+			}
 		}
 		got := p.State.Facts.Truth(ts, ts.Cmp("==", acq[0].Res[0], ts.Nil(nil)))
 		seen[got] = true
@@ -142,10 +176,23 @@ func timerChanOf(cs SelCase, timer *T) bool {
 
 func c05Wait(c *Ctx) {
 	c.Rule("wait")
-	for _, spec := range []struct {
+	type waitSpec struct {
 		fn, reserve string
-	}{{"ratelimiter.(*rateLimiter).acquirePermitsWithMaxWait", "acquirePermits"}, {"ratelimiter.(*rateLimiter).AcquirePermits", "ReservePermits"}} {
-		fn := c.P.Func(spec.fn)
+		f           *ssa.Function
+	}
+	specs := []waitSpec{{"ratelimiter.(*rateLimiter).acquirePermitsWithMaxWait", "acquirePermits", nil}, {"ratelimiter.(*rateLimiter).AcquirePermits", "ReservePermits", nil}}
+	if ws := limiterWaiters(c); len(ws) > 0 {
+		specs = specs[1:]
+		for _, w := range ws {
+			specs = append(specs, waitSpec{c.fn(w), "acquirePermits", w})
+		}
+	}
+	flavours := map[string]bool{}
+	for _, spec := range specs {
+		fn := spec.f
+		if fn == nil {
+			fn = c.P.Func(spec.fn)
+		}
 		if fn == nil {
 			c.Unresolved(spec.fn, "not found")
 			continue
@@ -245,6 +292,12 @@ func c05Wait(c *Ctx) {
 				continue
 			}
 			oc := sel.Cases[1-tc].Chan
+			if oc.Op == "app" && hasPrefix(oc.Aux, "Done@") {
+				flavours["context"] = true
+			}
+			if oc.Op == "app" && hasPrefix(oc.Aux, "Canceled@") {
+				flavours["execution"] = true
+			}
 			if !(oc.Op == "app" && (hasPrefix(oc.Aux, "Done@") || hasPrefix(oc.Aux, "Canceled@"))) {
 				bad("the second case of the wait must be the context's Done() or the execution's Canceled() channel")
 				continue
@@ -278,6 +331,9 @@ func c05Wait(c *Ctx) {
 		if ok {
 			c.Ok(spec.fn, c.P.FuncPos(fn), fmt.Sprintf("%d paths: nil only from the timer case of a timer lasting exactly the reserved wait; -1 ⇒ ErrExceeded at once; cancelled ⇒ timer stopped, cause returned", len(ps)))
 		}
+	}
+	if !flavours["context"] || !flavours["execution"] {
+		c.Fail("ratelimiter#waits", "", "the limiter needs a blocking acquire that a context interrupts and one that an execution's cancellation interrupts", "")
 	}
 }
 
@@ -324,7 +380,19 @@ func c05Delegation(c *Ctx) {
 		}, "same"},
 	}
 	n := 0
+	split := len(limiterWaiters(c)) > 0
 	for _, sp := range specs {
+		if split && sp.callee == "acquirePermitsWithMaxWait" {
+			// the dual-mode helper is gone: AcquirePermitsWithMaxWait waits itself (wait rule), and the single-permit form
+			// is that with one permit
+			if sp.fn == "ratelimiter.(*rateLimiter).AcquirePermitsWithMaxWait" {
+				continue
+			}
+			sp.callee = "AcquirePermitsWithMaxWait"
+			sp.args = func(ev *Evaluator, fn *ssa.Function) []func(*T) bool {
+				return []func(*T) bool{param(ev, fn, "ctx"), isConst(1), param(ev, fn, "maxWaitTime")}
+			}
+		}
 		fn := c.P.Func(sp.fn)
 		if fn == nil {
 			c.Unresolved(sp.fn, "not found")
@@ -1288,7 +1356,7 @@ func c13Builders(c *Ctx) {
 			if unl == triT {
 				want = ts.LinConst(-1, ma.Typ)
 			}
-			if unl == triU || got != want {
+			if unl == triU || !sameUnder(ev, p.State.Facts, got, want) {
 				ok = false
 				c.Fail(c.fn(fn), c.P.FuncPos(fn), "WithMaxAttempts(n) must mean n−1 retries, and -1 unlimited", pathTrace(ev, p))
 			}
@@ -1378,4 +1446,46 @@ func statsConfigField(ev *Evaluator, st *State, s *T, f string) *T {
 		}
 	}
 	return ev.LoadField(st, s, f)
+}
+
+// limiterWaiters: when the dual-mode acquirePermitsWithMaxWait(ctx, exec, …) of the reviewed tree is gone — split into a
+// context flavour and an execution flavour, as maintainers like to do — the functions of the package that take its place:
+// those that ask the limiter's stats for permits themselves and then wait on a timer (other than AcquirePermits, which
+// reserves through ReservePermits). nil when the original function exists.
+func limiterWaiters(c *Ctx) []*ssa.Function {
+	if c.P.Func("ratelimiter.(*rateLimiter).acquirePermitsWithMaxWait") != nil {
+		return nil
+	}
+	var out []*ssa.Function
+	for _, fn := range c.P.Funcs {
+		if fn.Pkg == nil || fn.Pkg.Pkg.Name() != "ratelimiter" || fn.Parent() != nil || !c.P.InScope[fn] || len(fn.Blocks) == 0 {
+			continue
+		}
+		if n := canonName(fn); n == "AcquirePermits" || n == "ReservePermits" || n == "TryReservePermits" {
+			continue
+		}
+		asks := false
+		for _, b := range fn.Blocks {
+			for _, in := range b.Instrs {
+				if cc, ok := in.(ssa.CallInstruction); ok && cc.Common().IsInvoke() && cc.Common().Method.Name() == "acquirePermits" {
+					asks = true
+				}
+			}
+		}
+		if !asks {
+			continue
+		}
+		ev := NewEvaluator(c.P, EvalConfig{})
+		timer := false
+		for _, p := range ev.Run(fn) {
+			if len(eventsWhere(p, func(e *Event) bool { return isCall(e, "NewTimer") })) > 0 {
+				timer = true
+			}
+		}
+		if timer {
+			out = append(out, fn)
+		}
+	}
+	sort.Slice(out, func(i, j int) bool { return c.fn(out[i]) < c.fn(out[j]) })
+	return out
 }
